@@ -71,6 +71,112 @@ MANIFEST = {
 from vlib import REPO  # noqa: E402
 
 
+# ===================================================================== register files: ground truth
+REGFILE_TARGETS = ['x86_64', 'arm', 'arm:thumb', 'riscv', 'msp430', 'avr', 'or1k', 'microblaze', 'mips', 'xtensa',
+                   'm68k', 'stm8', 'mcs6500']
+_X86_FAM = {'a': 'a', 'b': 'b', 'c': 'c', 'd': 'd'}
+
+
+def _x86_truth(name, bits):
+    """(family, set of byte positions) of an x86_64 register from its architectural NAME (independent of
+    Register.aliases / num)"""
+    import re
+    m = re.fullmatch(r'xmm(\d+)', name)
+    if m:
+        return ('xmm' + m.group(1), frozenset(range(bits // 8)))
+    m = re.fullmatch(r'r(\d+)([dwb]?)', name)
+    if m:
+        n = {'': 8, 'd': 4, 'w': 2, 'b': 1}[m.group(2)]
+        return ('r' + m.group(1), frozenset(range(n)))
+    m = re.fullmatch(r'([re]?)([abcd])x', name)
+    if m:
+        return (m.group(2), frozenset(range({'r': 8, 'e': 4, '': 2}[m.group(1)])))
+    m = re.fullmatch(r'([abcd])([lh])', name)
+    if m:
+        return (m.group(1), frozenset([0] if m.group(2) == 'l' else [1]))
+    m = re.fullmatch(r'([re]?)(si|di|bp|sp)(l?)', name)
+    if m and not (m.group(1) and m.group(3)):
+        n = 1 if m.group(3) else {'r': 8, 'e': 4, '': 2}[m.group(1)]
+        return (m.group(2), frozenset(range(n)))
+    return None
+
+
+def _avr_truth(name, bits):
+    import re
+    m = re.fullmatch(r'r(\d+)', name)
+    if m:
+        return ('gpr', frozenset([int(m.group(1))]))
+    m = re.fullmatch(r'r(\d+):r(\d+)', name)
+    if m and int(m.group(1)) == int(m.group(2)) + 1:
+        return ('gpr', frozenset([int(m.group(2)), int(m.group(1))]))
+    if name in ('W', 'X', 'Y', 'Z'):
+        lo = {'W': 24, 'X': 26, 'Y': 28, 'Z': 30}[name]
+        return ('gpr', frozenset([lo, lo + 1]))
+    return None
+
+
+def truth_overlap(march, arch):
+    """ground-truth overlap relation {(class, name): set of (class, name) incl. itself} computed from the
+    architectural register NAMES (x86_64: rax>eax>ax>al/ah ..., avr: rN+1:rN = {rN, rN+1}, W/X/Y/Z), or
+    None when no independent description is available for the target"""
+    fn = {'x86_64': _x86_truth, 'avr': _avr_truth}.get(march)
+    if fn is None:
+        return None
+    regs = {}
+    for r in arch.info.alias:
+        regs[(type(r).__name__, r.name)] = fn(r.name, getattr(type(r), 'bitsize', 8))
+    out = {}
+    for k, t in regs.items():
+        if t is None:
+            out[k] = None
+            continue
+        out[k] = set(k2 for k2, t2 in regs.items() if t2 is not None and t2[0] == t[0] and (t2[1] & t[1]))
+    return out
+
+
+def check_register_files(ctx):
+    """every run, all targets: arch.info.alias (what assign_colors/has_edge and this validator use) against the
+    ground truth where available, generic well-formedness elsewhere"""
+    from ppci.api import get_arch
+    stats = {}
+    for march in REGFILE_TARGETS:
+        try:
+            arch = get_arch(march)
+            table = arch.info.alias
+        except Exception as ex:   # noqa: BLE001
+            stats[march] = 'unavailable: %s' % type(ex).__name__
+            continue
+        key = lambda r: (type(r).__name__, r.name)    # noqa: E731
+        tbl = {key(r): set(key(x) for x in s2) for r, s2 in table.items()}
+        problems = []
+        for k, s2 in tbl.items():
+            for q in s2:
+                if q not in tbl or k not in tbl[q]:
+                    problems.append((k, 'alias relation not symmetric with %s' % (q,), sorted(s2), None))
+        by = {key(r): r for r in table}
+        for k, s2 in tbl.items():
+            for q in s2:
+                if q != k and q in by and type(by[q]) is type(by[k]) and \
+                        getattr(type(by[q]), 'bitsize', 0) == getattr(type(by[k]), 'bitsize', 1) and march not in ('x86_64',):
+                    problems.append((k, 'aliases a distinct register of the same class and size: %s' % (q,), sorted(s2), None))
+        truth = truth_overlap(march, arch)
+        if truth is not None:
+            for k, t in truth.items():
+                if t is None:
+                    problems.append((k, 'register name not covered by the ground-truth description', sorted(tbl[k]), None))
+                elif t - {k} != tbl[k] - {k}:     # (self entries exist only for registers of a register class)
+                    problems.append((k, 'alias table differs from the physical overlap', sorted(tbl[k]), sorted(t)))
+        stats[march] = {'registers': len(tbl), 'ground_truth': truth is not None, 'problems': len(problems)}
+        for k, what, actual, expected in problems[:6]:
+            ctx.violation({'fn': 'arch.info.alias', 'key': 'regfile:%s:%s' % (march, k[1]), 'args': [march, k[1]],
+                           'what': what, 'expected': [list(x) for x in expected] if expected is not None else 'well-formed alias relation',
+                           'actual': [list(x) for x in actual],
+                           'how_to_replay': 'PYTHONPATH=/repo python -c "from ppci.api import get_arch; a=get_arch(%r); '
+                                            'print({r.name: sorted(x.name for x in s) for r, s in a.info.alias.items() if r.name == %r})"'
+                                            % (march, k[1])})
+    ctx.cov['stages']['register_files'] = stats
+
+
 # ===================================================================== capture
 class Capture:
     def __init__(self):
@@ -229,6 +335,14 @@ class Capture:
             al = {}
             for r, s in self.arch.info.alias.items():
                 al[(type(r).__name__, r.name)] = set((type(x).__name__, x.name) for x in s)
+            # where an independent description exists (x86_64, avr) the validator uses the ground-truth
+            # overlap, not the target's own alias table
+            try:
+                truth = truth_overlap(self.arch.name if self.arch.name in ('x86_64', 'avr') else '', self.arch)
+            except Exception:   # noqa: BLE001
+                truth = None
+            if truth is not None and all(v is not None for v in truth.values()):
+                al = truth
             rec['alias'] = al
             # the allocator's own liveness of the last round (for localisation statistics)
             own = {}
@@ -1514,6 +1628,7 @@ def run(ctx):
                        'Model/SpillCheck.vo', 'Model/RegAllocHelpers.vo', 'Lib/Val.vo'])
     if ok:
         ctx.check_props('Props/C06.v')
+    check_register_files(ctx)
     cap = Capture()
     cap.install()
     t0 = time.time()
